@@ -32,8 +32,10 @@ package grpc
 //@   ensures result == b.blen
 //@ extern func (*bytes.Buffer).Bytes
 //@   ensures len(result) == b.blen
+//@ ghost var lastFlagByte int
 //@ extern func (*bytes.Buffer).ReadByte
-//@   modifies b.blen
+//@   modifies b.blen, lastFlagByte
+//@   ensures lastFlagByte == result0
 //@   ensures old(b.blen) > 0 ==> b.blen == old(b.blen) - 1 && result1 == nil
 //@   ensures old(b.blen) <= 0 ==> b.blen == old(b.blen)
 //@ extern func (*bytes.Buffer).Read
@@ -81,6 +83,15 @@ package grpc
 //@   ensures nMsg == old(nMsg) + 1 && nEnd == old(nEnd) + ite(streamEnded, 1, 0)
 //@   ensures lastMsgEnd == streamEnded && lastMsgNil == (data == nil) && lastMsgLen == len(data)
 
+// The factory wires each direction's adapter to the sink of the SAME direction (pass-through frames and re-emitted
+// messages of server-to-client traffic go to the client, and vice versa).
+//@ func AsStreamProcessorFactory$1
+//@   dyncalls-opaque
+//@   serves C11
+//@   requires sinks != nil
+//@   noframe
+//@   ensures[client-to-server-adapter-feeds-the-client-to-server-sink] ref(result0) != nil ==> typeis(result0, *adapter) && as(result0, *adapter).dir == h2.ClientToServer && as(result0, *adapter).sink == sinks.cToS
+//@   ensures[server-to-client-adapter-feeds-the-server-to-client-sink] ref(result1) != nil ==> typeis(result1, *adapter) && as(result1, *adapter).dir == h2.ServerToClient && as(result1, *adapter).sink == sinks.sToC
 //@ func (*adapter).isEnabled
 //@   serves C11
 //@   requires a != nil && a.enabled != nil
@@ -116,6 +127,10 @@ package grpc
 //@        nMsg == old(nMsg) + 1 && lastMsgNil && lastMsgEnd
 //@   loop 0 invariant adapterOK(a) && *a.enabled > 0 && nEnd == old(nEnd)
 //@   loop 0 invariant nMsg >= old(nMsg) && (len(old(data)) == 0 && old(a.state == readingMetadata && a.buffer.blen == 0) ==> nMsg == old(nMsg) && a.state == readingMetadata && a.buffer.blen == 0)
+// every message carries its own compressed-flag: the adapter's flag is the flag byte of the prefix just read, for an
+// uncompressed message after a compressed one as well
+//@   modifies lastFlagByte
+//@   at call 0 of Read before assert[compressed-flag-is-the-flag-byte-of-this-message] a.compressed == (lastFlagByte > 0)
 //@   at call 1 of Message before assert[message-has-prefixed-length] a.compressed && a.encoding == Identity || !a.compressed ==> len(data) == a.length
 //@   at call 1 of Message before assert[decoded-with-stream-encoding] a.compressed && a.encoding != Identity ==> lastDecFmt == fmtFor(a.encoding)
 
